@@ -116,6 +116,7 @@ func init() {
 		if a.ok {
 			c.rulesC13(a, c.lockAnalysis())
 			c.rulesC13grace()
+			c.rulesC13send(c.lockAnalysis())
 		}
 	})
 }
